@@ -361,6 +361,10 @@ def from_consts(ty, n):
     if isinstance(ty, TList):
         return VList(ty.elem, z3.Const(n, z3.SeqSort(elem_sort(ty.elem))))
     if isinstance(ty, TDict):
+        if isinstance(ty.val, TTuple):
+            # struct of arrays: one map per component of the tuple value
+            ms = [z3.Const(f"{n}#map{i}", z3.ArraySort(elem_sort(ty.key), srt)) for i, srt in enumerate(flat_sorts(ty.val))]
+            return VDict(ty.key, ty.val, z3.Const(n + "#keys", z3.SeqSort(elem_sort(ty.key))), ms, ty.default)
         return VDict(
             ty.key,
             ty.val,
@@ -388,7 +392,7 @@ def flat(v):
     if isinstance(v, VOpt):
         return [v.isnone] + flat(v.val)
     if isinstance(v, VDict):
-        return [v.keys, v.m]
+        return [v.keys] + (list(v.m) if isinstance(v.m, list) else [v.m])
     if isinstance(v, VSet):
         return [v.m]
     if isinstance(v, VTuple):
@@ -423,7 +427,10 @@ def unflat(ty, es):
             return VList(t.elem, es.pop(0))
         if isinstance(t, TDict):
             k = es.pop(0)
-            m = es.pop(0)
+            if isinstance(t.val, TTuple):
+                m = [es.pop(0) for _ in flat_sorts(t.val)]
+            else:
+                m = es.pop(0)
             return VDict(t.key, t.val, k, m, t.default)
         if isinstance(t, TSet):
             return VSet(t.elem, es.pop(0))
@@ -492,8 +499,23 @@ def coerce(v, ty, what="value"):
     raise Unsupported(f"{what}: cannot use {v.ty} as {ty}")
 
 
+def dict_select(d, ke):
+    if isinstance(d.m, list):
+        return unflat(d.vty, [z3.Select(a, ke) for a in d.m])
+    return elem_value(d.vty, z3.Select(d.m, ke))
+
+
+def dict_store(d, ke, v):
+    if isinstance(d.m, list):
+        return [z3.Store(a, ke, x) for a, x in zip(d.m, flat(coerce(v, d.vty, "dict value")))]
+    fl = flat(coerce(v, d.vty, "dict value"))
+    return z3.Store(d.m, ke, fl[0])
+
+
 def empty_dict(ty):
     ks = elem_sort(ty.key)
+    if isinstance(ty.val, TTuple):
+        return VDict(ty.key, ty.val, z3.Empty(z3.SeqSort(ks)), [z3.K(ks, x) for x in flat(default_value(ty.val))], ty.default)
     return VDict(ty.key, ty.val, z3.Empty(z3.SeqSort(ks)), z3.K(ks, flat(default_value(ty.val))[0]), ty.default)
 
 
